@@ -154,8 +154,13 @@ def check_extract(tier, seed):
                 for min_q in (0, 20, 40):
                     for skip_dup, skip_qc, skip_sup in itertools.product((True, False), repeat=3):
                         for idf, names in (("SM", {"A": "SA", "B": "SB"}), ("ID", {"A": "rgA", "B": "rgB"})):
-                            with pysam.AlignmentFile(bam) as af:
-                                got = extract_read_variants(locus, af, samples=None, id=idf, min_quality=min_q, skip_duplicates=skip_dup, skip_qcfail=skip_qc, skip_supplementary=skip_sup, read_dicts=True)
+                            try:
+                                with pysam.AlignmentFile(bam) as af:
+                                    got = extract_read_variants(locus, af, samples=None, id=idf, min_quality=min_q, skip_duplicates=skip_dup, skip_qcfail=skip_qc, skip_supplementary=skip_sup, read_dicts=True)
+                            except Exception as ex:
+                                ev += 1
+                                bad("rt/extract_read_variants_raises", "mchap.io.bam.extract_read_variants", {"locus": [lstart, lstop], "snvs": list(snvs), "min_quality": min_q}, repr(ex), "a read matrix")
+                                continue
                             for s in ("A", "B"):
                                 exp = expected_matrix(reads, lstart, lstop, snvs, s, min_q, skip_dup, skip_qc, skip_sup)
                                 g = {k: "".join(v[0]) for k, v in got[names[s]].items()}
@@ -190,7 +195,13 @@ def check_counts_and_reference(tier, seed):
             prog.ref = ref
             data = make_data(locus, names, {n: 2 for n in names}, {n: 0.0 for n in names}, {n: np.zeros((0, 3, 2)) for n in names}, {n: np.zeros(0, dtype=np.int64) for n in names}, [FORMAT.GT])
             data.sample_bams = {n: [(n, bam)] for n in names}
-            data = prog.encode_sample_reads(data)
+            try:
+                data = prog.encode_sample_reads(data)
+            except Exception as ex:
+                ev += 1
+                if len(fails) < 3:
+                    fails.append({"key": "rt/encode_sample_reads_raises", "check": "mchap.application.baseclass.program.encode_sample_reads", "input": {"mapping_quality": min_q, "skip": list(keep)}, "observed": repr(ex) + " <- " + repr(ex.__cause__), "expected": "encoded reads"})
+                continue
             for s, n in (("A", "SA"), ("B", "SB")):
                 exp = expected_matrix(reads, 20, 40, snvs, s, min_q, *keep)
                 rows = list(exp.values())
